@@ -10,8 +10,9 @@ cd /repo || exit 2
 if [ -n "$(git status --porcelain)" ]; then echo "/repo not clean"; exit 2; fi
 if [ $CONFIRM = 1 ]; then
   WT=/tmp/seedchk.$$; git worktree add -q --detach $WT HEAD
-  ( cd $WT && PYTHONPATH=$WT /venv/bin/python "$SEED/demo.py" >/dev/null 2>&1; echo "demo without change: exit $?" )
-  ( cd $WT && git apply "$SEED/patch.diff" && PYTHONPATH=$WT /venv/bin/python "$SEED/demo.py" >/dev/null 2>&1; echo "demo with change: exit $?" )
+  mkdir -p $WT/_seed && cp "$SEED/demo.py" $WT/_seed/demo.py   # demos locate the tree relative to their own path
+  ( cd $WT && PYTHONPATH=$WT /venv/bin/python _seed/demo.py >/dev/null 2>&1; echo "demo without change: exit $?" )
+  ( cd $WT && git apply "$SEED/patch.diff" && PYTHONPATH=$WT /venv/bin/python _seed/demo.py >/dev/null 2>&1; echo "demo with change: exit $?" )
   ( cd $WT && /venv/bin/python -m pytest -q -p no:cacheprovider --timeout=900 --continue-on-collection-errors 2>&1 | tail -1 )
   git worktree remove --force $WT
 fi
